@@ -161,17 +161,20 @@ static int c11_case(const int * keys, int n, int dmask, int vmask, char * msg, s
   for (int i = 0; i < n; i++) myth_tls_tree_set(t, keys[i], (vmask >> i & 1) ? (void *)(long)(0x7000 + keys[i]) : NULL);
   ndlog = 0;
   myth_tls_tree_fini(t, KA);
-  /* model */
-  int want = 0;
+  /* model: exactly one call per key with a destructor and a non-NULL value, with that value; never a foreign value.
+     A call with NULL for a key that has a destructor is neither demanded nor forbidden by the property (POSIX would
+     skip it; the library's own test tests/myth_key_destructor.c expects it), so such calls are ignored here. */
+  int want = 0, nonnull = 0;
   for (int i = 0; i < n; i++) if ((dmask >> i & 1) && (vmask >> i & 1)) want++;
   int o = 0, bad = 0;
+  for (int j = 0; j < ndlog && j < 64; j++) if (dlog[j].val != NULL) nonnull++;
   for (int i = 0; i < n; i++) {
     int calls = 0;
-    for (int j = 0; j < ndlog && j < 64; j++) if (dlog[j].fn == i) { calls++; if (dlog[j].val != (void *)(long)(0x7000 + keys[i])) { bad = 1; o += snprintf(msg + o, msz - o, "destructor of key %d called with %p (not its value); ", keys[i], dlog[j].val); } }
+    for (int j = 0; j < ndlog && j < 64; j++) if (dlog[j].fn == i && dlog[j].val != NULL) { calls++; if (dlog[j].val != (void *)(long)(0x7000 + keys[i])) { bad = 1; o += snprintf(msg + o, msz - o, "destructor of key %d called with %p (not its value); ", keys[i], dlog[j].val); } }
     int expect = ((dmask >> i & 1) && (vmask >> i & 1)) ? 1 : 0;
-    if (calls != expect && !bad) { bad = 1; o += snprintf(msg + o, msz - o, "destructor of key %d called %d time(s), expected %d; ", keys[i], calls, expect); }
+    if (calls != expect && !bad) { bad = 1; o += snprintf(msg + o, msz - o, "destructor of key %d called %d time(s) with a value, expected %d; ", keys[i], calls, expect); }
   }
-  if (ndlog != want && !bad) { bad = 1; snprintf(msg + o, msz - o, "%d destructor calls in total, expected %d", ndlog, want); }
+  if (nonnull != want && !bad) { bad = 1; snprintf(msg + o, msz - o, "%d destructor calls with a value in total, expected %d", nonnull, want); }
   return bad;
 }
 
